@@ -1,6 +1,8 @@
 package main
 
 import (
+	"os"
+	"runtime/debug"
 	"fmt"
 	"go/constant"
 	"go/types"
@@ -33,6 +35,10 @@ func (e *Env) child() *Env {
 func (e *Env) sorts() *Sorts { return e.fg.sorts }
 
 func (e *Env) fail(x *SExpr, f string, a ...interface{}) {
+	if os.Getenv("GOVC_DEBUG") != "" {
+		debug.PrintStack()
+		fmt.Fprintf(os.Stderr, "curBlock=%d\n", e.fg.curBlock)
+	}
 	e.fg.fail("spec %q: %s", x.String(), fmt.Sprintf(f, a...))
 }
 
@@ -753,7 +759,8 @@ func (e *Env) index(x *SExpr) Val {
 		// spec array sort "(Array K V)"
 		if strings.HasPrefix(a.Sort, "(Array ") {
 			_, vs := splitArraySort(a.Sort)
-			return Val{T: fmt.Sprintf("(select %s %s)", a.T, i.T), Sort: vs}
+			// values of a struct sort keep their Go type so that fields can be selected
+			return Val{T: fmt.Sprintf("(select %s %s)", a.T, i.T), Sort: vs, Ty: e.sorts().goTypeOf[vs]}
 		}
 		e.fail(x, "indexing spec sort %s", a.Sort)
 	}
@@ -934,6 +941,19 @@ func (e *Env) call(x *SExpr) Val {
 				lo := e.tr(x.Args[1])
 				n := e.tr(x.Args[2])
 				return Val{T: fmt.Sprintf("(bytes.of %s %s %s)", d.T, lo.T, n.T), Sort: "Bytes"}
+			case "rangeSeen":
+				// rangeSeen(N, k): key k has already been produced by the N-th map range of the function
+				// (numbered in the order the ranges start)
+				n, err := strconv.Atoi(x.Args[0].String())
+				if err != nil || n < 0 || n >= len(fg.ranges) {
+					e.fail(x, "rangeSeen: no map range number %s (yet)", x.Args[0].String())
+				}
+				rng := fg.ranges[n]
+				u := types.Unalias(rng.X.Type()).Underlying().(*types.Map)
+				fam := "IT_seen_" + shortTypeName(u.Key())
+				k := e.tr(x.Args[1])
+				it := fg.val(rng)
+				return boolVal(fmt.Sprintf("(select (select %s %s) %s)", fg.heap(e.st, fam, ""), it.T, k.T))
 			case "blen":
 				a := e.tr(x.Args[0])
 				return intVal(fmt.Sprintf("(blen %s)", a.T))
